@@ -369,3 +369,80 @@ func (ru *RegUniverse) TL2Set(filter string) map[string]bool {
 	}
 	return set
 }
+
+// ---------------------------------------------------------------------------------------------------------------
+// TL2-source registry universe (C17, option set t1): TL2 declarations may carry annotations on TYPES as well as on
+// functions, and any identifier is accepted there. Known annotations (the six the registry has accessors for) and
+// unknown ones are put on structs, aliases and unions; the unknown names are chosen so that they sort before, between
+// and after the six known names (an index computed from a sorted list must not turn an unknown name into a known bit).
+// TL2 types have no constructor tag of their own (registry tag 0, lookup by name only), have no TL1 side, and union
+// variants are not items.
+
+// RegTL2Item is one expected registry entry of the TL2-source universe.
+type RegTL2Item struct {
+	Name   string
+	Tag    uint32 // functions only
+	IsFunc bool
+	Annot  []string // the known annotations of the declaration (unknown ones have no accessor)
+	Decl   string
+}
+
+// RegTL2Universe returns the TL2 source text and the registry it demands.
+func RegTL2Universe() (string, []*RegTL2Item) {
+	var b strings.Builder
+	var items []*RegTL2Item
+	known := map[string]bool{}
+	for _, a := range AnnotationNames {
+		known[a] = true
+	}
+	add := func(annots []string, name string, tag uint32, body string) {
+		var line strings.Builder
+		it := &RegTL2Item{Name: name, Tag: tag, IsFunc: tag != 0}
+		for _, a := range annots {
+			line.WriteString("@" + a + " ")
+			if known[a] {
+				it.Annot = append(it.Annot, a)
+			}
+		}
+		line.WriteString(name)
+		if tag != 0 {
+			fmt.Fprintf(&line, "#%08x", tag)
+		}
+		line.WriteString(" " + body + ";")
+		it.Decl = line.String()
+		b.WriteString(it.Decl + "\n")
+		items = append(items, it)
+	}
+	b.WriteString("// C17: TL2-source registry universe (generated by gen/uni/universe_reg.go)\n")
+	add(nil, "svc.point", 0, "= x:int32 y:int32")
+	// unknown annotation names around every known one: aaa < any < experimental < internal < jjj < kphp < lll < read <
+	// reada < readwrite < slow < write < zzz
+	for i, a := range []string{"aaa", "experimental", "jjj", "lll", "reada", "slow", "zzz"} {
+		add([]string{a}, fmt.Sprintf("svc.unk%d", i), 0, "= x:int32")
+	}
+	add([]string{"deprecated"}, "svc.Shape", 0, "= circle r:int32 | square a:int32")
+	add([]string{"aaa", "zzz"}, "svc.Color", 0, "= red | green | blue")
+	add([]string{"experimental", "slow"}, "svc.twoUnknown", 0, "= name:string limit:int32")
+	// known annotations on types
+	for _, a := range AnnotationNames {
+		add([]string{a}, "svc.known"+upFirst(a), 0, "= x:int32")
+	}
+	add([]string{"read", "kphp"}, "svc.knownTwo", 0, "= x:int32 s:string")
+	add([]string{"internal", "experimental"}, "svc.mixed", 0, "= x:int32")
+	add(append([]string{}, AnnotationNames...), "svc.knownAll", 0, "= x:int32")
+	add([]string{"write"}, "svc.KnownUnion", 0, "= a x:int32 | b")
+	// functions (only known annotations: an unknown one on a function is a generator warning and would enter the list)
+	tag := uint32(0x1b8b9f01)
+	fn := func(annots []string, name, body string) {
+		add(annots, name, tag, body)
+		tag++
+	}
+	fn(nil, "svc.fNone", "p:svc.point => svc.point")
+	for _, a := range AnnotationNames {
+		fn([]string{a}, "svc.f"+upFirst(a), "id:int32 => svc.unk1")
+	}
+	fn([]string{"read", "write"}, "svc.fTwo", "cfg:svc.twoUnknown => bool")
+	fn(append([]string{}, AnnotationNames...), "svc.fAll", "=> int32")
+	fn([]string{"readwrite"}, "svc.fUnion", "p:svc.point => svc.Shape")
+	return b.String(), items
+}
